@@ -165,7 +165,7 @@ func (t *Tokenizer) tokenizeBuffer(buf []byte, last bool) {
 			switch t.mode[256] {
 			case 't':
 				switch b {
-				case ':', '[', '{', '/', '"', '\'':
+				case ':', ',', '[', '{', '/', '"', '\'':
 					// A token continued from an earlier buffer ends here. Handle
 					// that the same way the scan in tokenStart does.
 					t.addToken(string(t.tmp))
